@@ -236,6 +236,11 @@ def str_strip(it, s, chars=None, left=True, right=True):
         raise EngineError('strip with symbolic char set')
     ctx = it.ctx
     atoms = V.atoms_of(s)
+    if chars is None and not ctx.spec and not isinstance(V.slen(s), int) or (chars is None and not ctx.spec and len(atoms) == 1 and atoms[0][0] == 'ch'):
+        # nothing to strip: a single character that is not whitespace
+        if (len(atoms) == 1 and atoms[0][0] == 'ch' or ctx.provable(zint(V.slen(s)) == 1)) and \
+                ctx.provable(z_not(V.char_pred('isspace', V.char_at(s, 0)))):
+            return s
     if not (len(atoms) == 1 and atoms[0][0] == 'sl'):
         return it.fresh_str('strip')
     n = V.slen(s)
@@ -401,6 +406,11 @@ def call_str_method(it, name, s, args, kwargs, node):
         return ctx.fresh_bool(name)
     if name in ('encode',):
         return Opaque('bytes')
+    if name == 'split' and not args and not kwargs and not ctx.spec:
+        # s.split() of a single non-space character is [s]
+        n = V.slen(s)
+        if ctx.provable(zint(n) == 1) and ctx.provable(z_not(V.char_pred('isspace', V.char_at(s, 0)))):
+            return PyList([s])
     raise EngineError('str.%s on a symbolic string' % name)
 
 
